@@ -354,6 +354,92 @@ theorem handleDateTime_onlyInvalid (cu : Culture) (c : Char) (rest : Text) (st :
     rw [if_neg hl]
     exact handleDefault_onlyInvalid _ _
 
+theorem handleAnnualDay_onlyInvalid (c : Char) (rest : Text) (st : CSt) : OnlyInvalid (handleAnnualDay c rest st) := by
+  unfold handleAnnualDay
+  cases h1 : repeatCount c rest 2 with
+  | error e => exact err_of _ _ _ (repeatCount_onlyInvalid _ _ _) e h1
+  | ok n =>
+    dsimp only
+    cases h2 : addField (addStep st (.num .dayOfMonth .dayOfMonth n 2 1 99)) F.dayOfMonth with
+    | error e => exact err_of _ _ _ (addField_onlyInvalid _ _) e h2
+    | ok st' => exact onlyInvalid_ok _
+
+theorem handleAnnual_onlyInvalid (cu : Culture) (c : Char) (rest : Text) (st : CSt) :
+    OnlyInvalid (handleAnnual cu c rest st) := by
+  unfold handleAnnual
+  cases hc : handleCommon c rest st with
+  | some r => exact handleCommon_onlyInvalid c rest st r hc
+  | none =>
+    dsimp only
+    repeat' (first
+      | exact handleMonthOrDay_onlyInvalid _ _ _ _
+      | exact handleAnnualDay_onlyInvalid _ _ _
+      | exact handleDefault_onlyInvalid _ _
+      | exact onlyInvalid_ok _
+      | split)
+
+theorem handleTotal_onlyInvalid (c : Char) (rest : Text) (st : CSt) (maxCount bit : Nat) (maxV : Int) (g s : Slot) :
+    OnlyInvalid (handleTotal c rest st maxCount bit maxV g s) := by
+  unfold handleTotal
+  cases h1 : repeatCount c rest maxCount with
+  | error e => exact err_of _ _ _ (repeatCount_onlyInvalid _ _ _) e h1
+  | ok n =>
+    dsimp only
+    split
+    · exact onlyInvalid_err
+    · cases h2 : addField st bit with
+      | error e => exact err_of _ _ _ (addField_onlyInvalid _ _) e h2
+      | ok st1 =>
+        dsimp only
+        cases h3 : addField st1 F.totalDuration with
+        | error e => exact err_of _ _ _ (addField_onlyInvalid _ _) e h3
+        | ok st2 => exact onlyInvalid_ok _
+
+theorem handleDuration_onlyInvalid (cu : Culture) (c : Char) (rest : Text) (st : CSt) :
+    OnlyInvalid (handleDuration cu c rest st) := by
+  unfold handleDuration
+  cases hc : handleCommon c rest st with
+  | some r => exact handleCommon_onlyInvalid c rest st r hc
+  | none =>
+    dsimp only
+    by_cases c0 : c = '.'
+    · rw [if_pos c0]; exact handleDot_onlyInvalid _ _ _
+    rw [if_neg c0]
+    by_cases c1 : c = ':'
+    · rw [if_pos c1]; exact onlyInvalid_ok _
+    rw [if_neg c1]
+    by_cases c2 : c = 'D'
+    · rw [if_pos c2]; exact handleTotal_onlyInvalid _ _ _ _ _ _ _ _
+    rw [if_neg c2]
+    by_cases c3 : c = 'H'
+    · rw [if_pos c3]; exact handleTotal_onlyInvalid _ _ _ _ _ _ _ _
+    rw [if_neg c3]
+    by_cases c4 : c = 'h'
+    · rw [if_pos c4]; exact handlePadded_onlyInvalid _ _ _ _ _ _ _ _
+    rw [if_neg c4]
+    by_cases c5 : c = 'M'
+    · rw [if_pos c5]; exact handleTotal_onlyInvalid _ _ _ _ _ _ _ _
+    rw [if_neg c5]
+    by_cases c6 : c = 'm'
+    · rw [if_pos c6]; exact handlePadded_onlyInvalid _ _ _ _ _ _ _ _
+    rw [if_neg c6]
+    by_cases c7 : c = 'S'
+    · rw [if_pos c7]; exact handleTotal_onlyInvalid _ _ _ _ _ _ _ _
+    rw [if_neg c7]
+    by_cases c8 : c = 's'
+    · rw [if_pos c8]; exact handlePadded_onlyInvalid _ _ _ _ _ _ _ _
+    rw [if_neg c8]
+    by_cases c9 : c = 'f' ∨ c = 'F'
+    · rw [if_pos c9]; exact handleFraction_onlyInvalid _ _ _
+    rw [if_neg c9]
+    by_cases c10 : c = '+'
+    · rw [if_pos c10]; exact handleSingle_onlyInvalid _ _ _
+    rw [if_neg c10]
+    by_cases c11 : c = '-'
+    · rw [if_pos c11]; exact handleSingle_onlyInvalid _ _ _
+    rw [if_neg c11]
+    exact handleDefault_onlyInvalid _ _
+
 /-- the pattern text stays inside the modelled subset: a LocalDateTime pattern text without the letter `l`
     (embedded `ld<…>` / `lt<…>` patterns are not modelled; the model answers `!dom` for them) -/
 def NoL (ty : PType) (text : Text) : Prop :=
@@ -369,6 +455,8 @@ theorem handleChar_onlyInvalid (ty : PType) (cu : Culture) (c : Char) (rest : Te
   · exact handleDate_onlyInvalid _ _ _ _
   · exact handleOffset_onlyInvalid _ _ _ _
   · exact handleDateTime_onlyInvalid _ _ _ _ (by simp only [NoL, List.mem_cons, not_or] at hl; exact fun h => hl.1 h.symm)
+  · exact handleAnnual_onlyInvalid _ _ _ _
+  · exact handleDuration_onlyInvalid _ _ _ _
 
 theorem noL_drop (ty : PType) (c : Char) (rest : Text) (k : Nat) (h : NoL ty (c :: rest)) : NoL ty (rest.drop k) := by
   cases ty <;> simp only [NoL] at h ⊢
@@ -466,6 +554,28 @@ theorem not_mem_append3 (a b : Text) (ha : 'l' ∉ a) (hb : 'l' ∉ b) : 'l' ∉
   · exact ha h
   · exact absurd h (by decide)
   · exact hb h
+
+/-- AnnualDate patterns (any template value): every pattern text, every culture record -/
+theorem compileAnnual_total (tm td : Int) (cu : Culture) (text : Text) : OnlyInvalid (compileAnnual tm td cu text) := by
+  unfold compileAnnual
+  split
+  · exact onlyInvalid_err
+  · split
+    · exact steppedOf_onlyInvalid _ (compileCustom_onlyInvalid _ _ _)
+    · exact onlyInvalid_err
+  · exact steppedOf_onlyInvalid _ (compileCustom_onlyInvalid _ _ _)
+
+/-- Duration patterns: every pattern text, every culture record -/
+theorem compileDuration_total (cu : Culture) (text : Text) : OnlyInvalid (compileDuration cu text) := by
+  unfold compileDuration
+  split
+  · exact onlyInvalid_err
+  · split
+    · exact steppedOf_onlyInvalid _ (compileCustom_onlyInvalid _ _ _)
+    · split
+      · exact steppedOf_onlyInvalid _ (compileCustom_onlyInvalid _ _ _)
+      · exact onlyInvalid_err
+  · exact steppedOf_onlyInvalid _ (compileCustom_onlyInvalid _ _ _)
 
 /-- LocalDateTime patterns (ISO template value): every pattern text without the letter `l`, every culture record
     whose date/time pattern texts do not use `l` either -/
@@ -629,6 +739,8 @@ theorem compile_total (ty : PType) (cu : Culture) (hcu : cu.offsetTextsCustom = 
   · exact compileDate_total cu text
   · exact compileOffset_total cu hcu text
   · exact compileDateTime_total _ cu hdt text hl
+  · exact compileAnnual_total _ _ cu text
+  · exact compileDuration_total cu text
 
 theorem invariantCulture_offsetTextsCustom : invariantCulture.offsetTextsCustom = true := by decide
 theorem invariantCulture_dtTextsNoL : invariantCulture.dtTextsNoL = true := by decide
@@ -654,5 +766,11 @@ example : outcome (compile (.datetime Tmpl.default) invariantCulture "uuuu-MM-dd
 example : outcome (compile (.datetime Tmpl.default) invariantCulture ['F']) = 0 := by decide +kernel
 example : outcome (compile (.datetime Tmpl.default) invariantCulture "HH uuuu HH".toList) = 1 := by decide +kernel
 example : outcome (compile (.datetime Tmpl.default) invariantCulture "gg MM".toList) = 1 := by decide +kernel
+example : outcome (compile (.annual 1 1) invariantCulture "MMMM dd".toList) = 0 := by decide +kernel
+example : outcome (compile (.annual 1 1) invariantCulture "ddd".toList) = 1 := by decide +kernel
+example : outcome (compile .duration invariantCulture "-D:hh:mm:ss.FFFFFFFFF".toList) = 0 := by decide +kernel
+example : outcome (compile .duration invariantCulture "D H".toList) = 1 := by decide +kernel
+example : outcome (compile .duration invariantCulture "H h".toList) = 1 := by decide +kernel
+example : outcome (compile .duration invariantCulture ['o']) = 0 := by decide +kernel
 
 end Pyoda.C08
